@@ -273,7 +273,9 @@ def parse_header(source: BinaryIO) -> Tuple[OFXHeaderType, str]:
 
         # OFX header is read by nice clean machines, not meatbags -
         # should not contain 💩, 漢字, or what have you.
-        line = source.readline().decode("ascii")
+        # (The header itself is ASCII, but a line read here can already contain body
+        # bytes in another encoding; those are skipped over by offset, not interpreted.)
+        line = source.readline().decode("ascii", errors="replace")
         if line.strip():
             found_header = True
             break
@@ -302,7 +304,7 @@ def parse_header(source: BinaryIO) -> Tuple[OFXHeaderType, str]:
         # First line is OFXHEADER; need to read next 8 lines for a fixed
         # total of 9 fields required by OFX v1 spec.
         for _ in range(8):
-            rawheader += source.readline().decode("ascii")
+            rawheader += source.readline().decode("ascii", errors="replace")
 
         header, header_end_offset = OFXHeaderV1.parse(rawheader)
 
